@@ -39,7 +39,7 @@ class SDVRPAdapter(RoutingAdapter):
     sol_type = "(cvrp_inst * Z) * list nat * bool"
     sol_fn = "check_C06_sol"
     reward_td = "reset"
-    shard = 120
+    shard = 60
     tiny = 3
 
     def variants(self, tier):
@@ -66,28 +66,32 @@ class SDVRPAdapter(RoutingAdapter):
             gp["capacity"] = variant["capacity"]
         return SDVRPEnv(generator_params=gp, check_solution=False)
 
-    def collect(self, ctx, pid, tier):
-        """the generic collection; an episode whose only failure is a crash of _get_reward (see signature) is reported
-        under C02, where crashes are reported, and left out elsewhere"""
-        from vt.envprops import collect
-        items = collect(self, ctx, tier)
-        if pid != "C02":
-            keep = []
-            for it in items:
-                if it.ep.crash and it.ep.crash.startswith("reward:"):
-                    ctx.count("sdvrp/reward_crash_episodes(reported under C02, dropped here)")
-                else:
-                    keep.append(it)
-            items = keep
-        return items
-
     def signature(self, item, tag, step):
+        # both defects are recorded as fixed (8311630, 56d7d8e) in known_findings.json; the signatures are kept so that a
+        # defect that returns is named again
         acts = item.ep.actions
         if tag == 18 and item.ep.crash and item.ep.crash.startswith("reward:"):
             return "sdvrp/default: get_reward-crashes-on-one-column-action-tensor"
         if tag == 14 and 0 not in acts:
             return "sdvrp/default: checker-rejects-complete-single-route-solution-without-depot-visit"
         return super().signature(item, tag, step)
+
+    def extra_items(self, ctx, pid, tier):
+        """the recorded witnesses of the two repaired defects, as mask-made episodes without padding:
+        one customer with demand 1.0 -> episode [1] (one-column action tensor handed to _get_reward);
+        demands [0.25, 0.25] -> episode [2, 1] (everything in one route, no depot visit in the list)"""
+        from vt.envprops import Item
+        items = []
+        for locs, dem in (([[0.6, 0.8]], [1.0]), ([[0.6, 0.8], [0.3, 0.4]], [0.25, 0.25])):
+            variant = {"num_loc": len(dem)}
+            env = self.make_env(variant)
+            td_in = TensorDict({"locs": torch.tensor([locs]), "depot": torch.tensor([[0.0, 0.0]]),
+                                "demand": torch.tensor([dem])}, batch_size=[1])
+            eps, td_reset, td_fin, actions = envh.rollout(env, td_in, ctx.rng, choosers=["high"], pad_steps=0, max_steps=8)
+            envh.rewards_and_verdicts(env, td_fin, td_reset, actions, eps, self.reward_td)
+            items.append(Item(self, variant, env, td_in, td_reset, eps[0], {"kind": "witness/fixed-8311630-56d7d8e", "chooser": "high"}, "solo"))
+            ctx.count("sdvrp/default/witness_episodes")
+        return items
 
     # ---------------------------------------------------------------- instances
     def instances(self, env, variant, rng, tier):
@@ -206,14 +210,14 @@ class SDVRPAdapter(RoutingAdapter):
     def extra_c06(self, ctx, tier, items):
         # the generic single-fault corruptions (vt/envs/_base.py), on a sample of the episodes in the thorough tier (budget)
         done = [it for it in items if it.ep.complete]
-        cap_n = 40 if tier == "quick" else 150
+        cap_n = 25 if tier == "quick" else 150
         sub = items if len(done) <= cap_n else ctx.rng.sample(done, cap_n)
         out = super().extra_c06(ctx, tier, sub) or {}
         rng = ctx.rng
         triples = []
         done_items = [it for it in items if it.ep.complete and it.batch == "solo"]
         rng.shuffle(done_items)
-        for it in done_items[: (30 if tier == "quick" else 100)]:
+        for it in done_items[: (18 if tier == "quick" else 100)]:
             acts = list(it.ep.actions)
             core = list(acts)
             while core and core[-1] == 0:
